@@ -200,7 +200,7 @@ static void one_case(int iface, int transport, int version, int src_tail, int nc
 	uint64_t target_time = 0, pr_time = 0;
 	int res, i, accept, silent = 0;
 	char what[48];
-	snprintf(what, sizeof what, "%s-%s", iface == 0 ? "extendTo" : iface == 1 ? "extend" : "async", transport == 0 ? "tcp" : "http");
+	snprintf(what, sizeof what, "%s-%s", iface == 0 ? "extendTo" : iface == 1 ? "extend" : iface == 3 ? "ha" : "async", transport == 0 ? "tcp" : "http");
 	srv_install(handler, NULL);
 	memset(&S, 0, sizeof S);
 	S.reply = reply; S.sub = sub;
@@ -238,8 +238,15 @@ static void one_case(int iface, int transport, int version, int src_tail, int nc
 		KSI_AsyncService *svc = NULL;
 		KSI_AsyncHandle *hd = NULL, *out = NULL;
 		int state = 0, err = 0;
-		res = KSI_ExtendingAsyncService_new(ctx, &svc);
-		if (res == KSI_OK) res = KSI_AsyncService_setEndpoint(svc, transport == 0 ? "ksi+tcp://ext.test:3331" : "ksi+http://ext.test:8081/x", LOGIN, KEY);
+		if (iface == 3) {
+			/* the high-availability extending service: the same request goes to two endpoints (both answered by the same extender) */
+			res = KSI_ExtendingHighAvailabilityService_new(ctx, &svc);
+			if (res == KSI_OK) res = KSI_AsyncService_addEndpoint(svc, transport == 0 ? "ksi+tcp://ext.test:3331" : "ksi+http://ext.test:8081/x", LOGIN, KEY);
+			if (res == KSI_OK) res = KSI_AsyncService_addEndpoint(svc, transport == 0 ? "ksi+tcp://ext2.test:3331" : "ksi+http://ext2.test:8081/x", LOGIN, KEY);
+		} else {
+			res = KSI_ExtendingAsyncService_new(ctx, &svc);
+			if (res == KSI_OK) res = KSI_AsyncService_setEndpoint(svc, transport == 0 ? "ksi+tcp://ext.test:3331" : "ksi+http://ext.test:8081/x", LOGIN, KEY);
+		}
 		if (res != KSI_OK) vf_harness_error("async extending service");
 		res = KSI_AsyncExtendingHandle_new(ctx, sig, pr, &hd);
 		if (res == KSI_OK) {
@@ -253,6 +260,12 @@ static void one_case(int iface, int transport, int version, int src_tail, int nc
 				vf_count("impl_calls", 1);
 				if (res != KSI_OK) break;
 				if (out == NULL) sn_now += 1;
+				else {
+					/* HA: a notice about one endpoint's failure; the request itself is still open */
+					int st = 0;
+					KSI_AsyncHandle_getState(out, &st);
+					if (st == KSI_ASYNC_STATE_ERROR_NOTICE) { KSI_AsyncHandle_free(out); out = NULL; }
+				}
 			}
 			if (out == NULL) { if (res == KSI_OK) { res = KSI_UNKNOWN_ERROR; vf_fail("async-no-completion", "extend request not handed back within 60 rounds"); } }
 			else {
@@ -323,9 +336,69 @@ static void one_case(int iface, int transport, int version, int src_tail, int nc
 	if (vf_alloc_live != 0) { vf_fail("leak", "%ld SDK allocations live after the case", vf_alloc_live); vf_alloc_live = 0; }
 }
 
+/* the supplied publication record replaces whatever anchor the signature carried - also when KSI_Signature_replacePublicationRecord is
+ * used on its own (e.g. to refresh the record of an earlier extension result from a newer publications file) */
+static void part_replace(void) {
+	int tail, nch, first, twice;
+	for (tail = 1; tail <= 3; tail++) for (nch = 1; nch <= 2; nch++) for (first = 0; first < 2; first++) for (twice = 0; twice < 2; twice++) {
+		KSI_CTX *ctx;
+		rs_params p;
+		rsig src, expected, got;
+		vbuf sb, rb, g;
+		KSI_Signature *sig = NULL, *cl = NULL, *back = NULL;
+		KSI_PublicationRecord *pr = NULL;
+		unsigned char root[RH_MAX_IMPRINT], *raw = NULL, *raw2 = NULL;
+		size_t rl = 0, n1 = 0, n2 = 0;
+		int i, res, round;
+		if (!vf_case_begin("replace-record:tail%d:chains%d:%s:%s", tail, nch, first ? "record-first" : "record-last", twice ? "twice" : "once")) continue;
+		ctx = ku_ctx();
+		rs_default_params(&p);
+		p.aggr_time = T0; p.pub_time = P0; p.tail = tail; p.nchains = nch;
+		for (i = 0; i < nch; i++) { p.nlinks[i] = 1 + (i & 1); p.chain_alg[i] = RH_SHA256; p.link_desc[i][0] = (unsigned)(i & 1); p.link_desc[i][1] = 1; }
+		rs_build(&src, &p);
+		vb_init(&sb); vb_init(&rb); vb_init(&g);
+		rs_serialize(&src, &sb);
+		if (first) record_first(&sb);
+		if (KSI_Signature_parse(ctx, sb.p, sb.n, &sig) != KSI_OK) vf_harness_error("source signature refused");
+		if (rs_cal_root(&src, root, &rl) != 0) vf_harness_error("calendar root");
+		expected = src;
+		expected.has_auth = 0; expected.has_pub = 1; expected.pub_time = src.cal_pub_time; memcpy(expected.pub_hash, root, rl); expected.pub_hash_len = rl; expected.pub_nrefs = 1;
+		for (round = 0; round <= twice; round++) {
+			pr = make_pubrec(ctx, src.cal_pub_time, root, rl);
+			res = KSI_Signature_replacePublicationRecord(sig, pr);
+			vf_count("impl_calls", 1);
+			if (res != KSI_OK) { vf_fail("replace-refused", "KSI_Signature_replacePublicationRecord (round %d) on a signature with %s refused a record that matches its calendar chain: 0x%x", round, tail == 1 ? "no anchor" : tail == 2 ? "a publication record" : "an authentication record", res); KSI_PublicationRecord_free(pr); break; }
+		}
+		if (res == KSI_OK) {
+			if (KSI_Signature_serialize(sig, &raw, &n1) != KSI_OK) vf_fail("unserializable", "signature cannot be serialized after its publication record was replaced");
+			else if (rs_parse(raw, n1, &got) != 0) vf_fail("result-not-wellformed", "after KSI_Signature_replacePublicationRecord on a signature with %s the serialized signature is not a well-formed signature (a former record left behind?): %zu bytes, source %zu bytes", tail == 1 ? "no anchor" : tail == 2 ? "a publication record" : "an authentication record", n1, sb.n);
+			else {
+				rs_verdict v;
+				rs_serialize(&expected, &rb);
+				rs_serialize(&got, &g);
+				if (g.n != rb.n || memcmp(g.p, rb.p, g.n) != 0) vf_fail("result-differs", "after replacing the record the signature differs from the reference result (has_pub=%d has_auth=%d, %zu vs %zu bytes)", got.has_pub, got.has_auth, g.n, rb.n);
+				rs_eval(&got, &v);
+				if (v.violated | v.uncomputable) vf_fail("result-inconsistent", "signature with the replaced record violates 0x%x/0x%x", v.violated, v.uncomputable);
+				/* the stored form is usable: it parses again and a clone serializes identically */
+				res = KSI_Signature_parse(ctx, raw, n1, &back);
+				if (res != KSI_OK) vf_fail("result-not-parsable", "the signature serialized after the replacement is refused by KSI_Signature_parse: 0x%x", res);
+				res = KSI_Signature_clone(sig, &cl);
+				if (res != KSI_OK || cl == NULL || KSI_Signature_serialize(cl, &raw2, &n2) != KSI_OK || n2 != n1 || memcmp(raw, raw2, n1) != 0) vf_fail("result-clone-differs", "clone of the signature with the replaced record: 0x%x, %zu vs %zu bytes", res, n2, n1);
+				vf_outcome("replace-record:tail%d:ok", tail);
+			}
+		}
+		KSI_free(raw); KSI_free(raw2);
+		KSI_Signature_free(back); KSI_Signature_free(cl); KSI_Signature_free(sig);
+		KSI_CTX_free(ctx);
+		vb_free(&sb); vb_free(&rb); vb_free(&g);
+		if (vf_alloc_live != 0) { vf_fail("leak", "%ld SDK allocations live after the case", vf_alloc_live); vf_alloc_live = 0; }
+		vf_case_end(1);
+	}
+}
+
 static void run(void) {
 	int iface, tr, ver, tail, nch, target, pubrec, reply, sub;
-	for (iface = 0; iface < 3; iface++) for (tr = 0; tr < 2; tr++) for (ver = 2; ver >= 1; ver--)
+	for (iface = 0; iface < 4; iface++) for (tr = 0; tr < 2; tr++) for (ver = 2; ver >= 1; ver--)
 	for (tail = 0; tail <= 3; tail++) for (nch = 1; nch <= 2; nch++) for (target = 0; target < 4; target++) for (pubrec = 0; pubrec < 4; pubrec++)
 	for (reply = 0; reply < R_NREPLY; reply++) {
 		int nsub = (reply == R_STATUS || reply == R_ERROR_PDU) ? NSTATUS : reply == R_RIGHT_ALTERED ? 3 : 1;
@@ -333,6 +406,7 @@ static void run(void) {
 		if (iface != 0 && (target == 1 || target == 3)) continue; /* a record's time is its own target */
 		if (iface != 0 && pubrec == 0 && target != 0) continue;
 		if (nch == 2 && !(tail == 1 && VF_THOROUGH)) continue;
+		if (iface == 3 && (ver == 1 || (!VF_THOROUGH && tr == 1))) continue;    /* HA service: PDU v2 (quick: TCP endpoints) */
 		if (ver == 1 && !(reply <= R_WRONG_ID || reply == R_OTHER_VERSION || reply == R_RIGHT_ALTERED)) continue;
 		if (!VF_THOROUGH) {
 			if (tr == 1 && reply > R_WRONG_ID && reply != R_RIGHT_ALTERED) continue;
@@ -361,6 +435,7 @@ static void run_all(void) {
 		vf_case_end(1);
 	}
 	g_rec_first = 0;
+	part_replace();
 }
 
 int main(int argc, char **argv) {
